@@ -160,6 +160,34 @@ static PATH_COUNTER: std::sync::atomic::AtomicUsize = std::sync::atomic::AtomicU
 /// reads. Returns a description of the first difference.
 pub fn path_roundtrip_check(m: &rosu_map::Beatmap, text: &str) -> Option<String> {
     let n = PATH_COUNTER.fetch_add(1, std::sync::atomic::Ordering::Relaxed);
+    // a legal `Write` that takes at most `k` bytes per call must receive the same bytes as a `Vec`
+    {
+        struct Short(usize, Vec<u8>);
+        impl io::Write for Short {
+            fn write(&mut self, buf: &[u8]) -> io::Result<usize> {
+                let m = buf.len().min(self.0);
+                self.1.extend_from_slice(&buf[..m]);
+                Ok(m)
+            }
+            fn flush(&mut self) -> io::Result<()> {
+                Ok(())
+            }
+        }
+        let k = [1usize, 2, 3, 5, 7, 8, 13, 64][n % 8];
+        let mut w = Short(k, Vec::new());
+        match m.clone().encode(&mut w) {
+            Err(e) => return Some(format!("encode into a writer taking {k} bytes per call: err {}", kind_tag(e.kind()))),
+            Ok(()) if w.1 != text.as_bytes() => {
+                let common = w.1.iter().zip(text.as_bytes()).take_while(|(a, b)| a == b).count();
+                return Some(format!(
+                    "encode into a writer taking {k} bytes per call writes {} bytes, encode_to_string {} (first difference at byte {common})",
+                    w.1.len(),
+                    text.len()
+                ));
+            }
+            Ok(()) => {}
+        }
+    }
     let path = scratch_dir().join(format!("{}-enc{}.osu", std::process::id(), n));
     let mut old = text.as_bytes().to_vec();
     old.extend_from_slice(b"\n[HitObjects]\n64,64,987654,1,0,0:0:0:0:\n96,64,987754,5,0,0:0:0:0:\n\n[Metadata]\nTitle:stale tail of an older file\n");
